@@ -116,6 +116,16 @@ class Ctx(Generic[T]):
         return None
 
 
+def lib_get_a(a: T, **rest: object) -> T:
+    """called as lib_get_a(**d): the value stored under 'a'"""
+    return a
+
+
+def lib_args(*args: T) -> tuple[T, ...]:
+    """called as lib_args(*xs)"""
+    return args
+
+
 def lib_ident(x: T) -> T:
     return x
 
@@ -163,7 +173,7 @@ def lib_either(x: T, y: U) -> Union[T, U]:
 
 
 __all__ = [
-    "A", "AppError", "B", "C", "Ctx", "E", "Falsy", "Halt", "IE", "Inner", "Outer", "Top", "lib_raise", "lib_raise_group", "Literal", "Optional", "Sequence", "T", "U", "Union", "Unpack",
+    "A", "AppError", "B", "C", "Ctx", "E", "Falsy", "Halt", "IE", "Inner", "Outer", "Top", "lib_raise", "lib_raise_group", "lib_get_a", "lib_args", "Literal", "Optional", "Sequence", "T", "U", "Union", "Unpack",
     "lib_dflt", "lib_either", "lib_first", "lib_ident", "lib_int", "lib_list", "lib_none", "lib_opt", "lib_pair",
     "lib_raise_if", "lib_str", "suppress",
 ]
